@@ -236,6 +236,7 @@ var nativeCuts = []nativeCut{
 			{"net.ParseIP(host).IsLoopback()", "zzIsLoopbackHost(host)"},
 			{"h.template(isLoopback(r), \"login\")", "zzTemplate(h, isLoopback(r), \"login\")"},
 			{"age.GenerateX25519Identity()", "zzAgeIdentity()"},
+			{"h.pgp.Exec(", "zzWebExec(h.pgp, "},
 		},
 		Append: "\nvar _ = age.GenerateX25519Identity\nvar _ = session.Get\nvar _ = net.ParseIP\nvar _ = http.Redirect\n",
 	},
